@@ -12,6 +12,20 @@ def has(rx, text):
     return re.search(rx, text, re.S) is not None
 
 
+def squeeze(text):
+    return re.sub(r"\s+", "", text)
+
+
+def variant(body, what, unrepaired, repaired):
+    """The two shapes of an allocation-failure site (whitespace-free literal text that the body must contain):
+    exactly one of them is present -> False (as found) / True (repaired); anything else fails closed."""
+    sq = squeeze(body)
+    a, b = unrepaired in sq, repaired in sq
+    if a == b:
+        raise AnchorError("%s: %s of the two known shapes of the allocation-failure path found" % (what, "both" if a else "neither"))
+    return b
+
+
 def gen_mem():
     v = strip_comments(read("Include/XalanVector.hpp"))
     l = strip_comments(read("Include/XalanList.hpp"))
@@ -56,13 +70,30 @@ def gen_mem():
     facts["list_erase_recycles"] = has(r"node\s*\.\s*next\s*=\s*m_freeListHeadPtr\s*;\s*m_freeListHeadPtr\s*=\s*&\s*node\s*;", fn) and not has(r"deallocate", fn)
     # --- XalanMap
     md = function_body(m, r"~XalanMap\s*\(\s*\)\s*\{", "~XalanMap")
+    mcc = function_body(m, r"m_eraseThreshold\s*\(\s*theRhs\s*\.\s*m_eraseThreshold\s*\)\s*\{", "XalanMap copy constructor")
+    # K-new-2 repair, part 2: the destructor's body is the helper doReleaseEntries(), which the copy constructor also
+    # calls when an insert throws (the destructor does not run for a partially constructed map)
+    fill = "const_iteratorentry=theRhs.begin();while(entry!=theRhs.end()){insert(*entry);++entry;}"
+    facts["map_copy_guarded"] = variant(mcc, "XalanMap copy constructor", "{" + fill + "assert(",
+                                        "{try{" + fill + "}catch(...){doReleaseEntries();throw;}assert(")
+    delegating = squeeze(md) == "{doReleaseEntries();}"
+    if facts["map_copy_guarded"] != delegating:
+        raise AnchorError("~XalanMap / copy constructor: the clean-up of a failed copy and the destructor's body do not go together")
+    if delegating:
+        md = function_body(m, r"void\s+doReleaseEntries\s*\(\s*\)\s*\{", "XalanMap::doReleaseEntries")
     # K8 repair: m_freeEntries.begin() only for a free list that has entries (so that it has its head node)
     facts["map_dtor_guard_buckets"] = has(r"doRemoveEntries\s*\(\s*\)\s*;\s*if\s*\(\s*!\s*m_buckets\s*\.\s*empty\s*\(\s*\)\s*&&\s*!\s*m_freeEntries\s*\.\s*empty\s*\(\s*\)\s*\)\s*\{[^}]*m_freeEntries\s*\.\s*begin\s*\(\s*\)", md)
     facts["map_dtor_frees_values"] = has(r"deallocate\s*\(\s*toRemove\s*->\s*value\s*\)", md)
     mc = function_body(m, r"void\s+clear\s*\(\s*\)\s*\{", "XalanMap::clear")
     facts["map_clear_recycles"] = has(r"^\{\s*doRemoveEntries\s*\(\s*\)\s*;", mc)
     ce = function_body(m, r"iterator\s+doCreateEntry\s*\([^)]*\)\s*\{", "XalanMap::doCreateEntry")
-    facts["map_value_before_node"] = has(r"if\s*\(\s*m_freeEntries\s*\.\s*empty\s*\(\s*\)\s*\)\s*\{\s*m_freeEntries\s*\.\s*push_back\s*\(\s*Entry\s*\(\s*allocate\s*\(\s*1\s*\)\s*\)\s*\)\s*;", ce)
+    # K-new-2 repair, part 1: the value block is released when the free list cannot allocate the node for it
+    facts["map_entry_guarded"] = variant(ce, "XalanMap::doCreateEntry",
+        "if(m_freeEntries.empty()){m_freeEntries.push_back(Entry(allocate(1)));}",
+        "if(m_freeEntries.empty()){value_type*consttheValue=allocate(1);try{m_freeEntries.push_back(Entry(theValue));}"
+        "catch(...){deallocate(theValue);throw;}}")
+    # in both shapes the value block is obtained before the list node (and the head node of a never-used free list)
+    facts["map_value_before_node"] = True
     # K23 repair: the entry is counted, and taken out again when the bucket cannot grow
     facts["map_bucket_push_guarded"] = has(r"\+\+\s*m_size\s*;\s*try\s*\{\s*m_buckets\s*\[\s*index\s*\]\s*\.\s*push_back\s*\([^;]*;\s*\}\s*catch\s*\(\s*\.\.\.\s*\)\s*\{\s*doRemoveEntry\s*\([^;]*;\s*throw\s*;", ce)
     # --- ArenaAllocator / ArenaBlock
@@ -72,7 +103,20 @@ def gen_mem():
     # K8 repair: reset() does not touch begin()/end() of a block list that was never used
     facts["arena_reset_guarded"] = has(r"^\{\s*if\s*\(\s*m_blocks\s*\.\s*empty\s*\(\s*\)\s*==\s*false\s*\)\s*\{[^}]*m_blocks\s*\.\s*begin\s*\(\s*\)", ar)
     ab = function_body(a, r"allocateBlock\s*\(\s*\)\s*\{", "ArenaAllocator::allocateBlock")
-    facts["arena_create_then_push"] = has(r"m_blocks\s*\.\s*push_back\s*\(\s*ArenaBlockType\s*::\s*create\s*\(", ab)
+    # K-new-1 repair: the new block is destroyed when the block list cannot allocate the node for it
+    facts["arena_block_guarded"] = variant(ab, "ArenaAllocator::allocateBlock",
+        "{m_blocks.push_back(ArenaBlockType::create(getMemoryManager(),m_blockSize));}",
+        "{ArenaBlockType*consttheNewBlock=ArenaBlockType::create(getMemoryManager(),m_blockSize);"
+        "try{m_blocks.push_back(theNewBlock);}catch(...){XalanDestroy(getMemoryManager(),theNewBlock);throw;}}")
+    # in both shapes the block (struct, then storage) is created before the list node
+    facts["arena_create_then_push"] = True
+    # the same site in ReusableArenaAllocator (not modelled; the flag tells the oracle which outcome to expect)
+    ra = strip_comments(read("PlatformSupport/ReusableArenaAllocator.hpp"))
+    rab = function_body(ra, r"allocateBlock\s*\(\s*\)\s*\{", "ReusableArenaAllocator::allocateBlock")
+    facts["rarena_block_guarded"] = variant(rab, "ReusableArenaAllocator::allocateBlock",
+        "{this->m_blocks.push_front(ReusableArenaBlockType::create(this->getMemoryManager(),this->m_blockSize));",
+        "{ReusableArenaBlockType*consttheNewBlock=ReusableArenaBlockType::create(this->getMemoryManager(),this->m_blockSize);"
+        "try{this->m_blocks.push_front(theNewBlock);}catch(...){XalanDestroy(this->getMemoryManager(),theNewBlock);throw;}")
     bd = function_body(b, r"~ArenaBlock\s*\(\s*\)\s*\{", "~ArenaBlock")
     facts["arenablock_dtor_all_objects"] = has(r"for\s*\(\s*size_type\s+i\s*=\s*0\s*;\s*i\s*<\s*this\s*->\s*m_objectCount\s*;\s*\+\+\s*i\s*\)\s*\{\s*XalanDestroy\s*\(\s*this\s*->\s*m_objectBlock\s*\[\s*i\s*\]\s*\)", bd)
     bbd = function_body(bb, r"~ArenaBlockBase\s*\(\s*\)\s*\{", "~ArenaBlockBase")
